@@ -405,10 +405,19 @@ def check(case, ctx):
                     other = gj.build_tree(root, opts)
                     if val(other) != val(tree):
                         diags.append({"kind": "entry-points-disagree", "entry": entry})
+                    elif _shape(other) != _shape(tree):
+                        # same values, but built differently (node classes / option flags): "identically ... under every build option"
+                        diags.append({"kind": "entry-points-build-different-trees", "entry": entry, "vs": "json",
+                                      **_first_shape_diff(_shape(tree), _shape(other))})
+                    if ctx is not None:
+                        ctx.count("entry_point_shapes_compared")
                 if entry == "pydiff" and not info["has_obj"]:
                     other = BasicBuilder(opts).build_tree(root)
                     if val(other) != val(tree):
                         diags.append({"kind": "entry-points-disagree", "entry": entry, "vs": "basic"})
+                    elif _shape(other) != _shape(tree):
+                        diags.append({"kind": "entry-points-build-different-trees", "entry": entry, "vs": "basic",
+                                      **_first_shape_diff(_shape(tree), _shape(other))})
                 # deep copy
                 try:
                     cp = tree.copy()
@@ -426,6 +435,29 @@ def check(case, ctx):
     if ctx is not None:
         ctx.seen(case, nontrivial=cyclic or info["shared"] or info["depth"] >= 2)
     return diags
+
+
+def _shape(tree):
+    """How the tree was built: node class and option flags of every node, in dfs order."""
+    import graphtage
+    out = []
+    for n in tree.dfs():
+        item = [type(n).__name__]
+        if isinstance(n, graphtage.ListNode):
+            item += [n.allow_list_edits, n.allow_list_edits_when_same_length]
+        if isinstance(n, graphtage.DictNode) or isinstance(n, graphtage.MultiSetNode):
+            item += [getattr(n, "auto_match_keys", None)]
+        if isinstance(n, graphtage.KeyValuePairNode):
+            item += [n.allow_key_edits]
+        out.append(tuple(item))
+    return out
+
+
+def _first_shape_diff(a, b):
+    for i, (x, y) in enumerate(zip(a, b)):
+        if x != y:
+            return {"node": i, "this_entry": repr(x), "other_entry": repr(y)}
+    return {"node": min(len(a), len(b)), "this_entry": f"{len(a)} nodes", "other_entry": f"{len(b)} nodes"}
 
 
 def _plain(e, entry):
